@@ -49,9 +49,8 @@ def extract(prog, timeout_ms=60000):
                 return Int(r, 'usize')
             if kind == 'store':
                 c = operand.concrete()
-                if c is None:
-                    raise Unsupported('store of a non-constant to the state word')
-                ex_.evs.append(Ev('W', 'state', order, c))
+                # a non-constant store writes a term over values read earlier on this path (e.g. "put back what I saw")
+                ex_.evs.append(Ev('W', 'state', order, c if c is not None else operand.t))
                 return UNIT
             if kind == 'cas':
                 expected, new = operand
@@ -71,9 +70,7 @@ def extract(prog, timeout_ms=60000):
             from .stubs import ordering_name
             r = ex_.fresh('rv', 64)
             c = args[1].concrete()
-            if c is None:
-                raise Unsupported('swap of a non-constant into the state word')
-            ex_.evs.append(Ev('RMW', 'state', ordering_name(args[2]), c, r))
+            ex_.evs.append(Ev('RMW', 'state', ordering_name(args[2]), c if c is not None else args[1].t, r))
             return Int(r, 'usize')
         ex.stubs['Atomic::swap'] = swap_stub
 
@@ -142,7 +139,7 @@ class Execution:
                     for e in p.events:
                         d = {'id': len(evs), 'thr': ti, 'po': po, 'kind': e.kind, 'loc': e.loc, 'order': e.order, 'active': active, 'call': cid,
                              'callname': call, 'path': pi, 'init': False,
-                             'wval': z3.BitVecVal(e.wval, 64) if e.wval is not None else None}
+                             'wval': None if e.wval is None else (z3.BitVecVal(e.wval, 64) if isinstance(e.wval, int) else (z3.substitute(e.wval, *subs) if subs else e.wval))}
                         po += 1
                         if e.rsym is not None:
                             d['rval'] = z3.BitVec('rval_%d' % d['id'], 64)
@@ -297,12 +294,12 @@ class Execution:
         """a read of the state word that happens-after a completed set but does not see COMPLETE (a later set disturbed the holder)"""
         evs = self.events
         stores = [e for e in evs if e['kind'] in ('W', 'RMW') and e['loc'] == 'state' and not e.get('init') and e.get('wval') is not None
-                  and z3.is_true(z3.simplify(e['wval'] == 2))]
+                  and not z3.is_false(z3.simplify(e['wval'] == 2))]
         bad = []
         for r in evs:
             if r['kind'] in ('R', 'RMW') and r['loc'] == 'state' and r.get('callname') in ('get', 'is_set'):
                 for w in stores:
-                    bad.append(z3.And(w['active'], r['active'], self.hb[w['id']][r['id']], r['rval'] != 2))
+                    bad.append(z3.And(w['active'], r['active'], w['wval'] == 2, self.hb[w['id']][r['id']], r['rval'] != 2))
         return z3.Or(*bad) if bad else z3.BoolVal(False)
 
     def premature_set(self):
